@@ -288,25 +288,7 @@ def run_R01_2(model, col, G):
         col.check(tok in aop and got == want, "R01.2", f"compound {s}: {tok} -> Operation.{m.member if m else None} -> {got}",
                   f"`x {s} y` is rewritten with Operation.{want}",
                   f"`x {s} y`: token {tok} (in assignment_op: {tok in aop}) -> {m} -> rewritten with Operation.{got}, expected {want}", REWRITE, h)
-    # shape of the rewrite
-    news = [c for c in ast.walk(h) if isinstance(c, ast.Call) and last_attr(c) == "AssignmentExpression"]
-    good = False
-    detail = "no AssignmentExpression constructed"
-    for c in news:
-        if len(c.args) >= 2 and isinstance(c.args[1], ast.Call) and last_attr(c.args[1]) == "BinaryExpression":
-            b = c.args[1]
-
-            def src(e):
-                if isinstance(e, ast.Name):
-                    v = find_assign(h, e.id)
-                    return unparse(v[-1]) if v else e.id
-                return unparse(e)
-
-            tl, bl, br = src(c.args[0]), src(b.args[1]) if len(b.args) > 2 else "", src(b.args[2]) if len(b.args) > 2 else ""
-            good = "GetLeft" in tl and "GetLeft" in bl and "GetRight" in br and not c.keywords
-            detail = f"AssignmentExpression({tl}, BinaryExpression(op, {bl}, {br}))"
-    col.check(good, "R01.2", f"{REWRITE}::v_AssignmentExpression rewrite shape", detail + "  (x = x op y, plain ASSIGN)",
-              f"rewrite is {detail}; expected AssignmentExpression(left, BinaryExpression(op, left, right)) with a plain assignment", REWRITE, h)
+    c08.check_rewrite_shape(model, col, "R01.2")
     # the plain-assignment early exit must test ASSIGN
     early = [n for n in ast.walk(h) if isinstance(n, ast.If) and "ASSIGN" in unparse(n.test)]
     col.check(bool(early), "R01.2", f"{REWRITE}::v_AssignmentExpression leaves `=` alone", "plain assignments are returned unchanged", None, REWRITE, h)
@@ -480,21 +462,7 @@ def run_R01_4(model, col, vm):
         col.check(good, "R01.4", f"{LOWER}::v_VariableDeclaration path[{'init' if visit_i is not None else 'no-init'}]",
                   "a DeclareVariableInstruction is emitted, before the initialiser is evaluated",
                   "a path emits no DeclareVariableInstruction before the initialiser: the variable keeps its old value when the declaration executes again", LOWER, vd)
-    nv = vm.arm("NEW_VARIABLE")
-    creates = [c for st in nv.body for c in ast.walk(st) if isinstance(c, ast.Call) and last_attr(c) in ("__CreateInstance", "_ExecutionContext__CreateInstance")]
-    top_assigns = [st for st in nv.body if isinstance(st, ast.Assign)]
-    bind_name = [st for st in top_assigns if isinstance(st.targets[0], ast.Subscript) and "Name" in unparse(st.targets[0].slice)]
-    col.check(bool(creates) and bool(bind_name), "R01.4", f"{VM}::__Execute NEW_VARIABLE arm",
-              "creates a fresh default instance and binds it to the variable's name unconditionally",
-              "the arm does not unconditionally bind a freshly created instance to the variable name (a guarded or cached binding keeps the previous iteration's value)", VM, nv.case)
-    if bind_name and creates:
-        v = bind_name[0].value
-        src = v
-        if isinstance(v, ast.Name):
-            vals = [x for st in nv.body for x in find_assign(ast.Module(body=[st], type_ignores=[]), v.id)]
-            src = vals[-1] if vals else v
-        col.check(isinstance(src, ast.Call) and last_attr(src) in ("__CreateInstance",), "R01.4", f"{VM}::__Execute NEW_VARIABLE value",
-                  f"the bound value is {unparse(src)}", f"the bound value is {unparse(src)}, not a fresh instance", VM, nv.case)
+    check_new_variable_fresh(col, vm, "R01.4")
     cpi = vm.ec.own_method("__CreatePrimitiveInstance")
     scalar_ret = None
     for n in ast.walk(cpi):
@@ -583,6 +551,27 @@ def run_R01_5(model, col, vm):
               "R01.5", f"{LOWER}::v_CastExpression", "CastInstruction(visit(argument), target type)", "cast lowering does not pass (argument value, target type)", LOWER, ce)
 
 
+def check_new_variable_fresh(col, vm, rule):
+    """The NEW_VARIABLE arm binds a freshly created default instance to the variable's name on every path."""
+    nv = vm.arm("NEW_VARIABLE")
+    holder = ast.Module(body=nv.body, type_ignores=[])
+    creates = [c for c in ast.walk(holder) if isinstance(c, ast.Call) and last_attr(c) in ("__CreateInstance", "_ExecutionContext__CreateInstance")]
+    top_assigns = [st for st in nv.body if isinstance(st, ast.Assign)]
+    bind_name = [st for st in top_assigns if isinstance(st.targets[0], ast.Subscript) and "Name" in unparse(st.targets[0].slice)]
+    col.check(bool(creates) and bool(bind_name), rule, f"{VM}::__Execute NEW_VARIABLE arm",
+              "creates a fresh default instance and binds it to the variable's name unconditionally",
+              "the arm does not unconditionally bind a freshly created instance to the variable name (a guarded or cached binding keeps the previous iteration's value)", VM, nv.case)
+    if bind_name and creates:
+        v = bind_name[0].value
+        srcs = [v]
+        if isinstance(v, ast.Name):
+            srcs = find_assign(holder, v.id) or [v]
+        notfresh = [x for x in srcs if not (isinstance(x, ast.Call) and last_attr(x) in ("__CreateInstance", "_ExecutionContext__CreateInstance"))]
+        col.check(not notfresh, rule, f"{VM}::__Execute NEW_VARIABLE value",
+                  f"the bound value is always {unparse(srcs[0])}", f"the bound value can be `{unparse(notfresh[0]) if notfresh else ''}`, not a fresh instance: a declaration executed again (loop body, "
+                  "sibling block re-using the name) starts from the previous variable's value", VM, nv.case)
+
+
 def run(model, col, tier):
     G = Grammar(model)
     vm = VMModel(model)
@@ -590,6 +579,7 @@ def run(model, col, tier):
     run_R01_1(model, col, G, vm)
     run_R01_2(model, col, G)
     lowering.run_templates(model, col, G, "R01.3")
+    lowering.check_scope_tables(model, col, "R01.8")
     run_R01_4(model, col, vm)
     run_R01_5(model, col, vm)
     # R01.6 grouping = the C08 rule set; R01.7 activation state = C03 R03.1/R03.2
@@ -602,7 +592,7 @@ def run(model, col, tier):
             ob.rule = "R01.6"
             col.obligations.append(ob)
     sub = Collector("C03")
-    c03.run(model, sub, "quick")
+    c03.run(model, sub, "quick", share=False)
     for ob in sub.obligations:
         if ob.rule in ("R03.1", "R03.2"):
             ob.rule = "R01.7"
